@@ -35,10 +35,18 @@ var extractorOps = []string{"x.text", "x.markdown", "x.markdownopts", "x.chunks"
 	"x.fragments", "x.lines", "x.paragraphs", "x.blocks", "x.elements", "x.analyze", "x.headings", "x.lists", "x.readingorder",
 	"x.ischarlevel", "x.ismulticol", "x.text.nohf", "x.text.bycol", "x.text.preserve", "x.text.join", "x.text.pages1"}
 
+// optionOps: the analysis and export entry points once more behind an option builder
+// ("+nohf" = ExcludeHeadersAndFooters, "+pages1" = Pages(1), "+bycol" = ByColumn,
+// "+join" = JoinParagraphs): options move work (and guards) around inside an operation.
+var optionOps = []string{"x.analyze+nohf", "x.elements+nohf", "x.document+nohf", "x.chunks+nohf", "x.markdown+nohf", "x.lines+nohf",
+	"x.paragraphs+nohf", "x.headings+nohf", "x.readingorder+nohf", "x.fragments+nohf", "x.blocks+nohf", "x.lists+nohf",
+	"x.document+pages1", "x.chunks+pages1", "x.analyze+pages1", "x.fragments+pages1", "x.markdown+bycol", "x.document+join", "x.chunks+bycol"}
+
 var streamOps = []string{"stream.html", "stream.htmldoc", "stream.parser", "stream.xref", "stream.epub", "stream.detect"}
 
 func allOps(f string) []string {
 	ops := append([]string{}, extractorOps...)
+	ops = append(ops, optionOps...)
 	switch f {
 	case "pdf":
 		ops = append(ops, "pdf.reader", "pdf.objects", "pdf.parser", "pdf.xref", "pdf.contentstream", "pdf.cmap", "pdf.streams")
@@ -462,6 +470,19 @@ func (s *simSeeker) Seek(off int64, whence int) (int64, error) {
 
 func extractorOp(op, path string) (uint64, error) {
 	e := tabula.Open(path)
+	if i := strings.IndexByte(op, '+'); i > 0 {
+		switch op[i+1:] {
+		case "nohf":
+			e = e.ExcludeHeadersAndFooters()
+		case "pages1":
+			e = e.Pages(1)
+		case "bycol":
+			e = e.ByColumn()
+		case "join":
+			e = e.JoinParagraphs()
+		}
+		op = op[:i]
+	}
 	switch op {
 	case "x.text":
 		s, _, err := e.Text()
